@@ -1,6 +1,6 @@
 (* Reference objects of property C15.  Nothing here looks at the code.
    - the value trees the property speaks about, their equality, the class that must round-trip;
-   - what "a line and column inside the text" means;
+   - what "a line and column inside the text" means (the coordinates of an offset of the text);
    - what stripping comments means (a five state reference machine). *)
 From Coq Require Import ZArith List Bool Lia.
 Import ListNotations.
@@ -77,17 +77,27 @@ Fixpoint in_class (v : value) : bool :=
        end) m
   end.
 
+(* the representative of a tree that a parser yields: a 64-bit integer that fits 32 bits is a 32-bit
+   integer (value_eq does not distinguish them), everything else unchanged *)
+Definition fits32 (z : Z) : bool := (-2147483648 <=? z) && (z <=? 2147483647).
+Fixpoint canon (v : value) : value :=
+  match v with
+  | JInt64 z => if fits32 z then JInt z else JInt64 z
+  | JList l => JList (map canon l)
+  | JMap m => JMap (map (fun kx => (fst kx, canon (snd kx))) m)
+  | _ => v
+  end.
+
 (* ---- positions ---- *)
+Definition hd0 (s : list Z) : Z := match s with [] => 0 | b :: _ => b end.
+
 (* number of line breaks of a text: LF, CR, or the pair CR LF counted once *)
 Fixpoint nbreaks (s : list Z) : Z :=
   match s with
   | [] => 0
   | c :: t =>
     if c =? 10 then 1 + nbreaks t
-    else if c =? 13 then match t with
-                         | 10 :: _ => nbreaks t
-                         | _ => 1 + nbreaks t
-                         end
+    else if c =? 13 then (if hd0 t =? 10 then nbreaks t else 1 + nbreaks t)
     else nbreaks t
   end.
 
@@ -97,27 +107,29 @@ Fixpoint run (s : list Z) : list Z :=          (* maximal prefix without a line 
   | [] => []
   | c :: t => if brk c then [] else c :: run t
   end.
-(* the line of the text around offset k: the break-free run ending at k and the one starting there *)
-Definition line_around (s : list Z) (k : nat) : list Z :=
-  rev (run (rev (firstn k s))) ++ run (skipn k s).
 
-(* (line, column) lies inside the text: the line number does not exceed the number of lines, and
-   there is an offset in the text (0 .. length, the terminator included) whose distance from the
-   start of its line is column - 1 *)
+(* the split  pre | post  of a text cuts a CR LF pair *)
+Definition cuts_crlf (pre post : list Z) : bool := (hd0 (rev pre) =? 13) && (hd0 post =? 10).
+
+(* (line, column) lies inside the text: they are the coordinates of an offset of the text (0 .. length,
+   the terminator's place included):  text = pre ++ post,
+     line   = 1 + the line breaks of the text that are complete before the offset
+              (= 1 + nbreaks pre unless the offset cuts a CR LF pair: JsonProofsBase.nbreaks_app),
+     column = 1 + the distance from the offset back to the start of its line. *)
 Definition position_inside (s : list Z) (line col : Z) : Prop :=
-  1 <= line <= 1 + nbreaks s /\
-  exists k, (k <= length s)%nat /\ col = 1 + Z.of_nat (length (run (rev (firstn k s)))) /\
-            1 <= col <= Z.of_nat (length (line_around s k)) + 1.
+  exists pre post, s = pre ++ post /\
+    line = 1 + (nbreaks s - nbreaks post) /\
+    col = 1 + Z.of_nat (length (run (rev pre))).
 
-(* executable form for the check: one pass over the text, [cur] = distance from the line start *)
-Fixpoint col_search (s : list Z) (cur want : Z) : bool :=
-  (cur =? want) ||
-  match s with
+(* executable form for the check: one pass over the text; [cur] = distance from the line start,
+   [total] = nbreaks of the whole text *)
+Fixpoint pos_search (total : Z) (post : list Z) (cur line col : Z) : bool :=
+  ((col =? cur + 1) && (line =? 1 + (total - nbreaks post))) ||
+  match post with
   | [] => false
-  | c :: t => col_search t (if brk c then 0 else cur + 1) want
+  | c :: t => pos_search total t (if brk c then 0 else cur + 1) line col
   end.
-Definition position_insideb (s : list Z) (line col : Z) : bool :=
-  (1 <=? line) && (line <=? 1 + nbreaks s) && col_search s 0 (col - 1).
+Definition position_insideb (s : list Z) (line col : Z) : bool := pos_search (nbreaks s) s 0 line col.
 
 (* ---- stripping comments: reference machine ---- *)
 Inductive smode := Normal | InString | InEscape | LineComment | BlockComment.
@@ -132,9 +144,11 @@ Fixpoint reference_strip_from (m : smode) (s : list Z) : list Z :=
       if c =? 34 then c :: reference_strip_from InString t
       else if c =? 47 then
         match t with
-        | 47 :: t' => reference_strip_from LineComment t'
-        | 42 :: t' => reference_strip_from BlockComment t'
-        | _ => c :: reference_strip_from Normal t
+        | [] => c :: reference_strip_from Normal t
+        | d :: t' =>
+          if d =? 47 then reference_strip_from LineComment t'
+          else if d =? 42 then reference_strip_from BlockComment t'
+          else c :: reference_strip_from Normal t
         end
       else c :: reference_strip_from Normal t
     | InString =>
@@ -148,11 +162,78 @@ Fixpoint reference_strip_from (m : smode) (s : list Z) : list Z :=
     | BlockComment =>
       if c =? 42 then
         match t with
-        | 47 :: t' => reference_strip_from Normal t'
-        | _ => reference_strip_from BlockComment t
+        | [] => reference_strip_from BlockComment t
+        | d :: t' =>
+          if d =? 47 then reference_strip_from Normal t'
+          else reference_strip_from BlockComment t
         end
       else if brk c then c :: reference_strip_from BlockComment t   (* line breaks are kept *)
       else reference_strip_from BlockComment t
     end
   end.
 Definition reference_strip (s : list Z) : list Z := reference_strip_from Normal s.
+
+(* ---- what a string literal denotes: RFC 8259 section 7 with the code points written as UTF-8
+        (RFC 3629); [s] is the text between the quotes.  None = the literal is not valid JSON
+        (raw control character, unknown or truncated escape, unpaired surrogate): not judged. ---- *)
+Definition hexv (c : Z) : option Z :=
+  if (48 <=? c) && (c <=? 57) then Some (c - 48)
+  else if (97 <=? c) && (c <=? 102) then Some (c - 87)
+  else if (65 <=? c) && (c <=? 70) then Some (c - 55)
+  else None.
+Definition hex4 (a b c d : Z) : option Z :=
+  match hexv a, hexv b, hexv c, hexv d with
+  | Some x, Some y, Some z, Some w => Some (4096 * x + 256 * y + 16 * z + w)
+  | _, _, _, _ => None
+  end.
+Definition utf8 (cp : Z) : list Z :=
+  if cp <? 128 then [cp]
+  else if cp <? 2048 then [192 + cp / 64; 128 + cp mod 64]
+  else if cp <? 65536 then [224 + cp / 4096; 128 + (cp / 64) mod 64; 128 + cp mod 64]
+  else [240 + cp / 262144; 128 + (cp / 4096) mod 64; 128 + (cp / 64) mod 64; 128 + cp mod 64].
+Definition simple_escape (e : Z) : option Z :=
+  if (e =? 34) || (e =? 92) || (e =? 47) then Some e
+  else if e =? 98 then Some 8 else if e =? 102 then Some 12 else if e =? 110 then Some 10
+  else if e =? 114 then Some 13 else if e =? 116 then Some 9 else None.
+
+Fixpoint ref_string (s : list Z) : option (list Z) :=
+  match s with
+  | [] => Some []
+  | c :: t =>
+    if c =? 92 then
+      match t with
+      | [] => None
+      | e :: t1 =>
+        if e =? 117 then
+          match t1 with
+          | a :: b :: c2 :: d :: t2 =>
+            match hex4 a b c2 d with
+            | None => None
+            | Some w =>
+              if (55296 <=? w) && (w <=? 56319) then        (* high surrogate: a low one must follow *)
+                match t2 with
+                | b1 :: u1 :: a' :: b' :: c' :: d' :: t3 =>
+                  if (b1 =? 92) && (u1 =? 117) then
+                    match hex4 a' b' c' d' with
+                    | Some w2 =>
+                      if (56320 <=? w2) && (w2 <=? 57343)
+                      then option_map (app (utf8 (65536 + 1024 * (w - 55296) + (w2 - 56320)))) (ref_string t3)
+                      else None
+                    | None => None
+                    end
+                  else None
+                | _ => None
+                end
+              else if (56320 <=? w) && (w <=? 57343) then None
+              else option_map (app (utf8 w)) (ref_string t2)
+            end
+          | _ => None
+          end
+        else match simple_escape e with
+             | Some x => option_map (cons x) (ref_string t1)
+             | None => None
+             end
+      end
+    else if (c <? 32) || (c =? 34) then None
+    else option_map (cons c) (ref_string t)
+  end.
